@@ -237,9 +237,34 @@ Definition last_of {A} (l : list A) : option A := match rev l with a :: _ => Som
 (** block_spacings *)
 Definition first_dir_conn (g : grid) (ob : block) (pd : nat) : res (K * K) :=
   match filter (has_dir g pd) (cnames g (bkey ob)) with p :: _ => Ok p | [] => Raise IndexError end.
-(** [fx2 = false]: the code as it stands (the 2-D rule divides by the distances of the origin
-    block's own connections); [fx2 = true]: the proposed repair C18-2d-origin-column (divides by
-    the spacings already found: first of direction 1 / 2, last of direction 3) *)
+(** the 2-D rule of block_spacings: the spacing of a direction whose track found no connection is the
+    origin block's volume divided by its sizes in the two other directions.
+    [fx2 = false]: the code as it stands (divides by the doubled distances of the origin block's own
+    first connection in each present direction); [fx2 = true]: the proposed repair
+    C18-2d-origin-column (divides by the spacings already found: first of direction 1 / 2, last of
+    direction 3) *)
+Definition spacings_2d (fx2 : bool) (g : grid) (ob : block) (s1 s2 s3 : list Qc) : res (list Qc * list Qc * list Qc) :=
+  let missing := ((if (length s1 =? 0)%nat then 1 else 0) + (if (length s2 =? 0)%nat then 1 else 0)
+                  + (if (length s3 =? 0)%nat then 1 else 0))%nat in
+  let own (pd : nat) : res Qc :=
+    if fx2 then
+      match pd with
+      | 1%nat => match s1 with x :: _ => Ok x | [] => Raise IndexError end
+      | 2%nat => match s2 with x :: _ => Ok x | [] => Raise IndexError end
+      | _ => match last_of s3 with Some x => Ok x | None => Raise IndexError end
+      end
+    else do p <- first_dir_conn g ob pd; Ok (two * dist_at g p (bkey ob)) in
+  let quot (pds : list nat) : res Qc :=
+    fold_left (fun acc pd => do d <- acc; do w <- own pd; Ok (d / w)) pds (Ok (bvol ob)) in
+  match missing with
+  | 0%nat => Ok (s1, s2, s3)
+  | 1%nat =>
+      if (length s1 =? 0)%nat then do d <- quot [2%nat; 3%nat]; Ok ([d], s2, s3)
+      else if (length s2 =? 0)%nat then do d <- quot [1%nat; 3%nat]; Ok (s1, [d], s3)
+      else do d <- quot [1%nat; 2%nat]; Ok (s1, s2, [d])
+  | 2%nat => Raise PlainException
+  | _ => Ok (s1, s2, s3)
+  end.
 Definition block_spacings (fx2 : bool) (g : grid) (ob : block) (av : Qc) : res (list Qc * list Qc * list Qc) :=
   do t1 <- track (fuel_of g) g 1 (Some av) ob None None;
   do t2 <- track (fuel_of g) g 2 (Some av) ob None None;
@@ -251,28 +276,7 @@ Definition block_spacings (fx2 : bool) (g : grid) (ob : block) (av : Qc) : res (
                | b0 :: _, Some bl => do z0 <- cen_z b0; do zl <- cen_z bl; Ok (if qlt z0 zl then rev (snd t3) else snd t3)
                | _, _ => Raise IndexError
                end;
-      let s1 := snd t1 in let s2 := snd t2 in
-      let missing := ((if (length s1 =? 0)%nat then 1 else 0) + (if (length s2 =? 0)%nat then 1 else 0)
-                      + (if (length s3 =? 0)%nat then 1 else 0))%nat in
-      let own (pd : nat) : res Qc :=
-        if fx2 then
-          match pd with
-          | 1%nat => match s1 with x :: _ => Ok x | [] => Raise IndexError end
-          | 2%nat => match s2 with x :: _ => Ok x | [] => Raise IndexError end
-          | _ => match last_of s3 with Some x => Ok x | None => Raise IndexError end
-          end
-        else do p <- first_dir_conn g ob pd; Ok (two * dist_at g p (bkey ob)) in
-      let quot (pds : list nat) : res Qc :=
-        fold_left (fun acc pd => do d <- acc; do w <- own pd; Ok (d / w)) pds (Ok (bvol ob)) in
-      match missing with
-      | 0%nat => Ok (s1, s2, s3)
-      | 1%nat =>
-          if (length s1 =? 0)%nat then do d <- quot [2%nat; 3%nat]; Ok ([d], s2, s3)
-          else if (length s2 =? 0)%nat then do d <- quot [1%nat; 3%nat]; Ok (s1, [d], s3)
-          else do d <- quot [1%nat; 2%nat]; Ok (s1, s2, [d])
-      | 2%nat => Raise PlainException
-      | _ => Ok (s1, s2, s3)
-      end
+      spacings_2d fx2 g ob (snd t1) (snd t2) s3
   end.
 
 (** block_mapping: the sequence of assignments [mapping[key] = value] (a later assignment to
@@ -387,9 +391,47 @@ Definition heading_class (vx vy : Qc) : nat :=      (* 0: zero vector (NaN); 1: 
   else if qlt 0 vx && qle vy 0 && qle 0 vy then 1%nat
   else if qlt 0 vy && qle vx 0 && qle 0 vx then 2%nat
   else 3%nat.
-(** [fxp = false]: the code as it stands (heading of the direction-1 track, 0/0 for a single block);
+(** match_position: the horizontal position and the top elevation of the new geometry
+    (rectangular(spacings) at the origin, rotated, translated by ob.centre - centre of its first
+    bottom block).
+    [fxp = false]: the code as it stands (heading of the direction-1 track, 0/0 for a single block);
     [fxp = true]: the proposed repair C18-single-block-direction-1 (a single-block direction-1 track
     falls back to the direction-2 track, whose heading is that of direction 1 minus 90 degrees) *)
+Definition match_position (fxp : bool) (g : grid) (ob : block) (s1 s2 s3 : list Qc) : res (posres * Qc) :=
+  do t1 <- track (fuel_of g) g 1 None ob None None;
+  let use2 := fxp && (length (fst t1) <=? 1)%nat in
+  do t2 <- (if use2 then track (fuel_of g) g 2 None ob None None else Ok t1);
+  match bcen ob, last_of (fst t2) with
+  | Some (obx, oby, obz), Some bl =>
+      match bcen bl with
+      | None => Raise TypeError
+      | Some (lx, ly, _) =>
+          let vx := lx - obx in let vy := ly - oby in
+          let g0 := mkRgeo 0 0 0 s1 s2 s3 0 0 0 (fun _ _ => 0) in
+          let tz := obz - lcen g0 (nz g0) in
+          let hc := heading_class vx vy in
+          Ok (if (hc =? 0)%nat then PosNaN
+              else if (hc =? (if use2 then 2 else 1))%nat then PosXY (obx - ccx g0 0) (oby - ccy g0 0)
+              else PosRotated, tz)
+      end
+  | _, _ => Raise TypeError
+  end.
+
+(** find_surface, snap_columns_to_layers, pruning of the block map *)
+Definition finish (g : grid) (av snap : Qc) (atm' : nat) (nm' : cid -> K) (s1 s2 s3 : list Qc) (log : list (K * K))
+           (pos : posres) (tz : Qc) : res result :=
+  (* the new geometry, translated; default surface = top elevation *)
+  let x0 := match pos with PosXY x _ => x | _ => 0 end in
+  let y0 := match pos with PosXY _ y => y | _ => 0 end in
+  let g1 := mkRgeo x0 y0 tz s1 s2 s3 atm' 0 0 (fun _ _ => tz) in
+  do surf <- mapM (find_col_surface g g1 log av nm') (colidx (nx g1) (ny g1));
+  let surf' := map (snap_surface g1 snap) surf in
+  let g2 := mkRgeo x0 y0 tz s1 s2 s3 atm' 0 0 (list_surf (nx g1) surf' tz) in
+  let names := map (fun c => nm' (cc c)) (cells g2) in
+  Ok (mkResult s1 s2 s3 pos tz surf' (filter (fun p => key_in (fst p) names) log)).
+
+(** rectgeo(origin_block = None, atmos_volume = av, remove_inactive = False, atmos_type = atm',
+    layer_snap = snap, <naming of the new geometry> = nm') *)
 Definition rectgeo (fxp fx2 : bool) (g : grid) (av snap : Qc) (atm' : nat) (nm' : cid -> K) : res result :=
   if negb (forallb (fun b => negb (vol_ok (Some av) (bvol b)) || match bcen b with Some _ => true | None => false end) (blocks g))
   then Raise PlainException
@@ -400,33 +442,8 @@ Definition rectgeo (fxp fx2 : bool) (g : grid) (av snap : Qc) (atm' : nat) (nm' 
       do sp <- block_spacings fx2 g ob av;
       let '(s1, s2, s3) := sp in
       do log <- block_mapping g ob (length s1) (length s2) (length s3) av atm' nm';
-      (* match_position *)
-      do t1 <- track (fuel_of g) g 1 None ob None None;
-      do t2 <- (if fxp && (length (fst t1) <=? 1)%nat then track (fuel_of g) g 2 None ob None None else Ok t1);
-      let use2 := fxp && (length (fst t1) <=? 1)%nat in
-      match bcen ob, last_of (fst t2) with
-      | Some (obx, oby, obz), Some bl =>
-          match bcen bl with
-          | None => Raise TypeError
-          | Some (lx, ly, _) =>
-              let vx := lx - obx in let vy := ly - oby in
-              let g0 := mkRgeo 0 0 0 s1 s2 s3 atm' 0 0 (fun _ _ => 0) in
-              let tz := obz - lcen g0 (nz g0) in
-              let hc := heading_class vx vy in
-              let pos := if (hc =? 0)%nat then PosNaN
-                         else if (hc =? (if use2 then 2 else 1))%nat then PosXY (obx - ccx g0 0) (oby - ccy g0 0)
-                         else PosRotated in
-              (* the new geometry, translated; default surface = top elevation *)
-              let g1 := mkRgeo (match pos with PosXY x _ => x | _ => 0 end) (match pos with PosXY _ y => y | _ => 0 end) tz
-                               s1 s2 s3 atm' 0 0 (fun _ _ => tz) in
-              do surf <- mapM (find_col_surface g g1 log av nm') (colidx (nx g1) (ny g1));
-              let surf' := map (snap_surface g1 snap) surf in
-              let g2 := mkRgeo (gox g1) (goy g1) tz s1 s2 s3 atm' 0 0 (list_surf (nx g1) surf' tz) in
-              let names := map (fun c => nm' (cc c)) (cells g2) in
-              Ok (mkResult s1 s2 s3 pos tz surf' (filter (fun p => key_in (fst p) names) log))
-          end
-      | _, _ => Raise TypeError
-      end
+      do pt <- match_position fxp g ob s1 s2 s3;
+      finish g av snap atm' nm' s1 s2 s3 log (fst pt) (snd pt)
   end.
 
 End Model.
